@@ -1227,7 +1227,13 @@ static void runManagerLayer()
                 int handled = 0;
                 QString lastId;
                 g_delivered.clear();
+                int sentBefore = c.sent.size();
                 mc.run(c, &ctx, &count);
+                // answered locally without any request (e.g. renaming an item that is not in the roster, importing no data):
+                // no reply or session end decides that value
+                bool sentIq = false;
+                for (int k = sentBefore; k < c.sent.size(); k++) if (c.sent[k].startsWith(QL("<iq"))) sentIq = true;
+                const bool local = !sentIq && count == expected;
                 // answer every request the API sends (some APIs chain several), at most 6 rounds
                 while (a != "silence-then-disconnect" && rounds < 6) {
                     int k = handled;
@@ -1253,6 +1259,7 @@ static void runManagerLayer()
                     if (count != before) oracleFail("C07:mgr:" + mc.name + ":duplicate-reply-completes-again", mc.name + " " + a);
                 }
                 auto checkValues = [&](const char *phase) {
+                    if (local) { g_delivered.clear(); return; }
                     std::string bad = wrongValue(a, lastId);
                     if (!bad.empty()) oracleFail("C07:mgr:" + mc.name + ":" + a + ":wrong-value", "manager layer: " + mc.name + " answered with " + a + " (" + phase + "): a waiter was handed " + bad + " (last answered request id " + S(lastId) + ")");
                     else if (!g_delivered.empty()) oraclePass()++;
